@@ -27,6 +27,8 @@ func init() {
 			"every cycle of every unbounded loop of the recursive-descent parser consumes a real (known non-EOF) token before it returns to the loop head, or leaves the loop (consume / consume-or-report summaries with and without a peeked token, report.HasErrors() edges). " +
 			"Not decided: absence of panics on arbitrary bytes, positions inside the input, print∘parse round-trip equality as values, limit accounting (value level), depth of recursion.",
 		Mutants: []Mutant{
+			{Name: "closing brace of a schema definition written blindly (the repaired defect F22)", File: "v2/pkg/astprinter/astprinter.go", Rule: "C05-R3", Key: "printer-siblings-content/Leave:Schema",
+				Old: "\tif len(p.document.SchemaDefinitions[ref].RootOperationTypeDefinitions.Refs) == 0 {\n\t\t// the opening brace is written by the first root operation type definition\n\t\tp.write(literal.LBRACE)\n\t}\n", New: ""},
 			{Name: "shorthand query chosen although the operation has directives (the repaired defect F21)", File: "v2/pkg/astprinter/astprinter.go", Rule: "C05-R7", Key: "EnterOperationDefinition/query-keyword-guard",
 				Old: "\t\tif hasName || hasVariables || hasDirectives {", New: "\t\t_ = hasDirectives\n\t\tif hasName || hasVariables {"},
 			{Name: "SimpleWalker no longer visits the directives of a schema definition (seeded change C05-12, sibling view)", File: "v2/pkg/astvisitor/simplevisitor.go", Rule: "C05-R6", Key: "walker-siblings/walkSchemaDefinition",
@@ -713,15 +715,28 @@ func definitionExtensionSiblings(r *fw.Run, rule string) {
 			if !ok {
 				return true
 			}
-			ix, ok := ast.Unparen(sel.X).(*ast.IndexExpr)
-			if !ok {
-				return true
+			// the chain below the element of the slice: d.<slice>[ref].A.B — every (non-embedded) field on the way counts
+			var ix *ast.IndexExpr
+			for x := ast.Unparen(sel.X); ix == nil; {
+				switch y := x.(type) {
+				case *ast.IndexExpr:
+					ix = y
+				case *ast.SelectorExpr:
+					x = ast.Unparen(y.X)
+				default:
+					return true
+				}
 			}
 			v, _ := fw.Field(info, ix.X)
 			if v == nil || v.Name() != slice {
 				return true
 			}
-			if fv, _ := info.Uses[sel.Sel].(*types.Var); fv != nil && fv.IsField() {
+			// only fields of the node itself (or of the definition it embeds), not of the sub-structures below
+			elemName := strings.TrimSuffix(slice, "s")
+			if _, owner := fw.FieldOwner(info, sel); owner != elemName && owner != strings.Replace(elemName, "Extension", "Definition", 1) {
+				return true
+			}
+			if fv, _ := info.Uses[sel.Sel].(*types.Var); fv != nil && fv.IsField() && !fv.Embedded() {
 				if named, _ := fv.Type().(*types.Named); named != nil && named.Obj().Pkg() != nil && named.Obj().Pkg().Name() == "position" {
 					return true
 				}
@@ -732,14 +747,28 @@ func definitionExtensionSiblings(r *fw.Run, rule string) {
 		return out
 	}
 	m := 0
+	type pair struct{ kind, phase, defSlice, extSlice, defFn, extFn string }
+	var pairs []pair
 	for _, kind := range []string{"ObjectType", "InterfaceType", "ScalarType", "UnionType", "EnumType", "InputObjectType"} {
-		def := p.Func("astprinter", "printVisitor.Enter"+kind+"Definition")
-		ext := p.Func("astprinter", "printVisitor.Enter"+kind+"Extension")
+		for _, phase := range []string{"Enter", "Leave"} {
+			pairs = append(pairs, pair{kind, phase, kind + "Definitions", kind + "Extensions", phase + kind + "Definition", phase + kind + "Extension"})
+		}
+	}
+	for _, phase := range []string{"Enter", "Leave"} {
+		pairs = append(pairs, pair{"Schema", phase, "SchemaDefinitions", "SchemaExtensions", phase + "SchemaDefinition", phase + "SchemaExtension"})
+	}
+	for _, pr := range pairs {
+		kind := pr.kind
+		def := p.Func("astprinter", "printVisitor."+pr.defFn)
+		ext := p.Func("astprinter", "printVisitor."+pr.extFn)
 		if def == nil || ext == nil {
 			continue
 		}
 		m++
-		a, b := reads(def, kind+"Definitions"), reads(ext, kind+"Extensions")
+		if pr.phase == "Leave" || kind == "Schema" {
+			kind = pr.phase + ":" + kind
+		}
+		a, b := reads(def, pr.defSlice), reads(ext, pr.extSlice)
 		var diff []string
 		for f := range a {
 			if !b[f] {
@@ -747,15 +776,24 @@ func definitionExtensionSiblings(r *fw.Run, rule string) {
 			}
 		}
 		for f := range b {
-			if !a[f] && f != kind+"Definition" {
+			if !a[f] && f != pr.kind+"Definition" {
 				diff = append(diff, f+" (printed only for the extension)")
 			}
 		}
+		if pr.kind == "Schema" { // `extend schema` has no description in the grammar; the parser never records one for extensions
+			var kept []string
+			for _, d := range diff {
+				if !strings.HasPrefix(d, "Description ") {
+					kept = append(kept, d)
+				}
+			}
+			diff = kept
+		}
 		sort.Strings(diff)
-		r.Check(len(diff) == 0, rule, "printer-siblings-content/"+kind, ext.Pos(), "Enter"+kind+"Definition and Enter"+kind+"Extension print the same parts of the node",
+		r.Check(len(diff) == 0, rule, "printer-siblings-content/"+kind, ext.Pos(), pr.defFn+" and "+pr.extFn+" print the same parts of the node",
 			"the sibling handlers disagree on: "+strings.Join(diff, ", ")+" — that part of an `extend` definition is parsed but never printed, so print(parse(x)) re-parses to a different document")
 	}
-	r.Expect(rule, "definition/extension handler pairs (content)", m, 6)
+	r.Expect(rule, "definition/extension handler pairs (content)", m, 14)
 }
 
 // parsePrintAgreement (R4): every content field of an AST node that the parser fills is read on the print path (the
